@@ -40,6 +40,11 @@ def run(ctx):
     ctx.alias = {'R3': 'R7'}
     c09.r3_arithmetic(ctx)       # ... and to_transposed moves up exactly when the direction EQUALS 'up' (value, not identity)
     ctx.alias = {}
+    # the transposed document shares nodes with its source (finding F10): anything an export remembers on a node (a memoised cell
+    # text) is then read back for the other document - exports must leave nothing behind
+    from . import shared
+    shared.effect_free(ctx, 'R8', [f'{N.PUBLIC}.dumps'],
+                       'the export of the source before the call and the export of the result after it must not communicate through the shared nodes')
 
 
 def r6_every_node_visited(ctx, tt):
